@@ -2,14 +2,18 @@
 //! circuit breaker under a forced interleaving of the breaker's scheduling points, on the virtual clock.
 //! case: base_ms strategy retry min_req interval buckets max_rt thr_bits
 //!       npre (B | X err | A dt)*                      sequential prelude (no scheduling)
-//!       nthreads { nops (B | X err)* }*  nsteps (tid dt_ms)*
+//!       nthreads { nops (B other | X err)* }*  nsteps (tid dt_ms)*
+//!       B other: other = 1 makes a slot after the breaker slot reject this entry (it passes the scheduling
+//!       point "cb:oracle" first); prelude builds are never rejected
 //! out : all_done ntrace (tid point)* ; nlog (kind a b c d)* ; final_state retry_rel
 //!       log kinds: 1 transition (tid|-1, from, to, now_rel) + retry_rel in the next slot -> 6 numbers per event:
 //!                  kind a b c d e ; 2 build (tid, admitted) ; 3 exit (tid, err, rt)
 use crate::sched;
 use crate::sched::point_code;
 use crate::util::*;
-use sentinel_core::base::{EntryStrongPtr, Snapshot};
+use sentinel_core::base::{BaseSlot, BlockType, EntryContext, EntryStrongPtr, RuleCheckSlot, Snapshot, TokenResult};
+use sentinel_core::verif::chain;
+use std::cell::Cell;
 use sentinel_core::circuitbreaker as cb;
 use sentinel_core::verif::clock;
 use sentinel_core::EntryBuilder;
@@ -18,6 +22,26 @@ use std::sync::{Arc, Mutex};
 static LOG: Mutex<Vec<[i128; 6]>> = Mutex::new(Vec::new());
 static BASE: Mutex<u64> = Mutex::new(0);
 static BREAKER: Mutex<Option<Arc<dyn cb::CircuitBreakerTrait>>> = Mutex::new(None);
+
+thread_local! { static REJECT: Cell<bool> = Cell::new(false); }
+
+/// a slot after the breaker slot that rejects the entries marked for it
+struct OracleSlot {}
+impl BaseSlot for OracleSlot {
+    fn order(&self) -> u32 {
+        9000
+    }
+}
+impl RuleCheckSlot for OracleSlot {
+    fn check(&self, ctx: &mut EntryContext) -> TokenResult {
+        if REJECT.with(|r| r.get()) {
+            sentinel_core::verif::sched::point("cb:oracle");
+            TokenResult::new_blocked(BlockType::Other(0))
+        } else {
+            ctx.result().clone()
+        }
+    }
+}
 
 fn st(s: cb::State) -> i128 {
     match s {
@@ -60,9 +84,12 @@ impl cb::StateChangeListener for Listener {
     fn on_circuit_breaker_drop(&self, _prev: cb::State, _rule: Arc<cb::Rule>) {}
 }
 
-fn do_build(name: &String, open: &mut Vec<(EntryStrongPtr, u64)>) {
+fn do_build(name: &String, other: bool, chain: &Arc<sentinel_core::base::SlotChain>, open: &mut Vec<(EntryStrongPtr, u64)>) {
     let t0 = sentinel_core::utils::curr_time_millis();
-    match EntryBuilder::new(name.clone()).build() {
+    REJECT.with(|r| r.set(other));
+    let res = EntryBuilder::new(name.clone()).with_slot_chain(chain.clone()).build();
+    REJECT.with(|r| r.set(false));
+    match res {
         Ok(e) => {
             LOG.lock().unwrap().push([2, tid(), 1, 0, 0, 0]);
             open.push((e, t0));
@@ -112,12 +139,13 @@ pub fn run_case(t: &mut Toks) -> Vec<i128> {
         return vec![-7];
     }
     *BREAKER.lock().unwrap() = Some(bs[0].clone());
+    let custom = Arc::new(chain::standard_plus(vec![Arc::new(OracleSlot {})], vec![]));
     // prelude
     let npre = t.usize();
     let mut open: Vec<(EntryStrongPtr, u64)> = Vec::new();
     for _ in 0..npre {
         match t.s().as_str() {
-            "B" => do_build(&name, &mut open),
+            "B" => do_build(&name, false, &custom, &mut open),
             "X" => do_exit(t.u64(), &mut open),
             _ => clock::advance_ns(t.u64() as i128 * 1_000_000),
         }
@@ -130,7 +158,7 @@ pub fn run_case(t: &mut Toks) -> Vec<i128> {
         let mut p = Vec::new();
         for _ in 0..k {
             match t.s().as_str() {
-                "B" => p.push((0, 0)),
+                "B" => p.push((0, t.u64())),
                 _ => p.push((1, t.u64())),
             }
         }
@@ -141,11 +169,12 @@ pub fn run_case(t: &mut Toks) -> Vec<i128> {
     let mut bodies: Vec<Box<dyn FnOnce() + Send>> = Vec::new();
     for prog in progs.into_iter() {
         let name = name.clone();
+        let custom = custom.clone();
         bodies.push(Box::new(move || {
             let mut open: Vec<(EntryStrongPtr, u64)> = Vec::new();
             for (kind, err) in prog {
                 if kind == 0 {
-                    do_build(&name, &mut open);
+                    do_build(&name, err == 1, &custom, &mut open);
                 } else {
                     do_exit(err, &mut open);
                 }
